@@ -6,6 +6,8 @@
    Test vectors: NIST "abc", the 448-bit message, the empty string, and padding boundaries
    (55, 56, 63, 64, 119, 120 bytes; reference values from python3 hashlib). *)
 From Hy Require Export lib.Bytes.
+From Coq Require Import Arith ZArith Lia ZifyBool ZifyNat ZifyN.
+Ltac Zify.zify_post_hook ::= Z.div_mod_to_equations.
 Local Open Scope N_scope.
 
 Definition M32 : N := 4294967296.          (* 2^32 *)
@@ -81,7 +83,7 @@ Definition compress (s : st256) (block : list byte) : st256 :=
 
 (* section 5.1.1: message, 0x80, k zero bytes, 64-bit big-endian bit length; total = 0 mod 64 *)
 Definition pad_zeros (len : nat) : nat :=
-  let r := (len mod 64)%nat in if Nat.leb r 55 then (55 - r)%nat else (119 - r)%nat.
+  let r := Nat.modulo len 64 in if Nat.leb r 55 then Nat.sub 55 r else Nat.sub 119 r.
 
 Definition pad (m : list byte) : list byte :=
   m ++ x80 :: repeat x00 (pad_zeros (length m)) ++ be_enc 8 (8 * N.of_nat (length m)).
@@ -101,7 +103,7 @@ Definition digest_of (s : st256) : list byte :=
   be_enc 4 (he s) ++ be_enc 4 (hf s) ++ be_enc 4 (hg s) ++ be_enc 4 (hh s).
 
 Definition sha256 (m : list byte) : list byte :=
-  let p := pad m in digest_of (blocks (S (length p / 64)) H0 p).
+  let p := pad m in digest_of (blocks (S (Nat.div (length p) 64)) H0 p).
 
 Lemma sha256_length m : length (sha256 m) = 32%nat.
 Proof. unfold sha256, digest_of. repeat rewrite app_length. repeat rewrite be_enc_length. reflexivity. Qed.
@@ -110,20 +112,13 @@ Lemma sha256_nonempty m : sha256 m <> [].
 Proof. intros E. pose proof (sha256_length m) as L. rewrite E in L. discriminate. Qed.
 
 (* the padded message is a whole number of blocks *)
-Lemma pad_length_mod m : (length (pad m) mod 64 = 0)%nat.
+Lemma pad_length_mod m : Nat.modulo (length (pad m)) 64 = 0%nat.
 Proof.
   unfold pad. rewrite app_length. cbn [length]. rewrite app_length, repeat_length, be_enc_length.
   unfold pad_zeros.
-  pose proof (Nat.div_mod (length m) 64 ltac:(discriminate)) as D.
-  pose proof (Nat.mod_upper_bound (length m) 64 ltac:(discriminate)) as U.
-  set (q := (length m / 64)%nat) in *. set (r := (length m mod 64)%nat) in *.
-  destruct (Nat.leb r 55) eqn:E.
-  - apply Nat.leb_le in E.
-    replace (length m + S (55 - r + 8))%nat with (64 + q * 64)%nat by lia.
-    rewrite Nat.mod_add by discriminate. reflexivity.
-  - apply Nat.leb_gt in E.
-    replace (length m + S (119 - r + 8))%nat with (0 + (q + 2) * 64)%nat by lia.
-    rewrite Nat.mod_add by discriminate. reflexivity.
+  destruct (Nat.leb (Nat.modulo (length m) 64) 55) eqn:E.
+  - apply Nat.leb_le in E. lia.
+  - apply Nat.leb_gt in E. lia.
 Qed.
 
 (* ---- test vectors ---- *)
